@@ -22,7 +22,8 @@ ASSUMPTIONS = [
     "named tolerances of the reference: leading empty lines ignored; obs-fold joined; field names containing '_' dropped; empty Transfer-Encoding list elements ignored; Content-Length absent = 0; whitespace (SP HTAB VT FF CR) around the request line ignored (RFC 9112 section 3 MAY); repeated Host/Content-Length/Content-Type refused; any Transfer-Encoding other than a single chunked is 501; Content-Length above 4300 digits refused; the body size limit is tested before chunk syntax",
     "persistence is observed with an application that always supplies Content-Length; HTTP/1.0 keep-alive is honoured only when keep-alive is the sole connection option (conservative); the only deviation switch left in the reference is dv_trailer (open finding F10), used to classify, never to excuse anything else",
     "the theorems are about the hand-written models (Model/Parser.v, Receiver.v, ChanSeq.v, and Task.bh_conn of Model/Task.v for the persistence decision); K-chanseq and the reference search are sampled, not exhaustive",
-    "the composition of the layer theorems over a whole pipelined stream (C01Observe.C01_full_dev) is stated, not proved: it is what K-chanseq + the search test",
+    "the composition over a whole pipelined stream (C01Observe.C01_full_dev) is proved (C01_full_dev_partial, Proof/C01Compose*.v) under two side conditions: max_request_body_size > 0, and targets_ok s (on every substring of the stream shaped like a request-target, urlsplit as modelled is defined and refuses exactly what the reference's RFC 3986 policy refuses; true of every stream without '[' and ']'); outside them the unconditional statement is false of the model (C01_full_dev_is_refuted: a chunked head with no body byte yet under limit 0; a target with a leading C0 control and an unbalanced '['; a bracketed host is unmodelled) and is what K-chanseq + the search test",
+    "every segmentation: by C02_split_independent the cut event trace of any division into reads equals that of the single read to which C01_full_dev_partial applies (C01_full_dev_any_segmentation); a single closed equation between the per-segmentation observation and ref_run is not assembled (413 / chunk-error tags are identified there: F12)",
 ]
 
 N_STREAMS = {"quick": 1500, "thorough": 20000}
